@@ -208,10 +208,14 @@ class FilePoolAdapter:
         n, pool = op["op"], w["pool"]
         if n == "new":
             fl = [w["paths"][i] for i in op["files"]]
-            w["pool"] = self.f.FilePool(fl if len(fl) % 2 else tuple(fl), self.MODES[op["mode"]])
+            kind = (len(fl) + op["mode"]) % 3      # a list, a tuple, or a one-shot iterator (the signature says Iterable[str])
+            w["pool"] = self.f.FilePool(fl if kind == 0 else (tuple(fl) if kind == 1 else iter(fl)), self.MODES[op["mode"]])
+            w["oneshot"] = kind == 2
             w["files"], w["mode"], w["phase"] = list(op["files"]), op["mode"], "built"
             return []
         if n == "enter":
+            if w["phase"] == "left" and w.get("oneshot"):
+                raise graphwalk.Skip("a pool built from a one-shot iterator cannot be entered twice (not part of the property)")
             w["gen"] = body(pool)
             if next(w["gen"]) is not pool:
                 raise Unexpected("__enter__ did not return the pool")
@@ -316,7 +320,7 @@ def run(ctx):
         model.mc(TP, consts, ctx, name, invariants=invs, properties=["AfterFlush"])
         model.mc(TP, dict(consts, Variant='"leak"'), ctx, name + "_neg", invariants=invs, properties=["AfterFlush"], expect_violation=True)
         g, _ = graphwalk.emit_graph(TP, model.cfg_text(consts, view="View", action_constraint="Emit"), ctx, name)
-        st = graphwalk.walk(g, TmpAdapter(f), ctx, name, op_timeout=20.0, paths_per_state=2)
+        st = graphwalk.walk(g, TmpAdapter(f), ctx, name, op_timeout=20.0, paths_per_state=3, history_ops=("flush", "remove", "ext_delete"))
         ctx.note("walk %s" % st)
     consts = {"NFiles": 2 if quick else 3, "Variant": '"ok"'}
     invs = ["AllOpenInside", "AllClosedOutside"]
